@@ -16,6 +16,7 @@ import (
 	"github.com/cinar/indicator/v2/strategy"
 	"github.com/cinar/indicator/v2/strategy/compound"
 	"github.com/cinar/indicator/v2/strategy/decorator"
+	strend "github.com/cinar/indicator/v2/strategy/trend"
 )
 
 func columnChannel(col helper.ReportColumn) (reflect.Value, bool) {
@@ -62,6 +63,11 @@ func reportStrategy(name string, n []int, f []float64) (strategy.Strategy, strin
 		return nil, "ERR unknown-wrapper"
 	}
 	if name == "MacdRsi" {
+		if len(n) == 3 && len(f) == 2 { // custom MACD periods and RSI levels (the exported fields a user may set)
+			m := compound.NewMacdRsiStrategyWith(f[0], f[1])
+			m.MacdStrategy = strategies["Macd"](n, nil).(*strend.MacdStrategy)
+			return m, ""
+		}
 		return compound.NewMacdRsiStrategy(), ""
 	}
 	ctor, ok := strategies[name]
